@@ -813,6 +813,17 @@ func (g *TxnGen) genAttach(t *rapid.T, st State) []Op {
 		ins := g.GenInsert(t, s.tb, pool, "")
 		ins.Row[s.col.Name] = mkVal(nil)
 		ops = append(ops, ins)
+		// a wait on the row just inserted whose expected row spells the reference the same way
+		// (by name when the insert did): "==" is satisfied at once, "!=" times out at once
+		if ins.UUID != "" && !s.value && s.col.Shape() != ShMap && rapid.IntRange(0, 2).Draw(t, "waitonnew") == 0 {
+			zero := 0
+			exp := ins.Row[s.col.Name].Clone()
+			if !(s.col.Shape() == ShSet && len(exp.K) > 1) {
+				ops = append(ops, Op{Op: "wait", Table: s.tb.Name, Timeout: &zero, Until: rapid.SampledFrom([]string{"==", "==", "!="}).Draw(t, "waituntil"),
+					Where: []Cond{{Col: "_uuid", Fn: "==", Val: Scalar(UUID(ins.UUID))}}, HasColumns: true, Columns: []string{s.col.Name}, Rows: []Row{{s.col.Name: exp}}})
+				Label("generator", "wait-on-row-inserted-in-the-transaction")
+			}
+		}
 	}
 	// sometimes also detach / delete something in the same transaction
 	if rapid.IntRange(0, 2).Draw(t, "alsodetach") == 0 {
